@@ -25,7 +25,7 @@ Section PrintOnRun.
       Hypotheses: the number law on [Q], and for the days of the period: the
       amounts satisfy [Q], the documented note forms, the line-length limit. *)
   Theorem run_print_twice_log_on w1 w2 op c data toks L :
-    rc_date c = toks ->
+    rc_date c = toks -> stable_layout toks = true ->
     print_setting w1 op data toks -> read_log NM toks data = Some L ->
     days_in NM Q (filter (in_period NM op) L) ->
     Forall (fun d => Forall (fun mp => documented_note mp = true) (notes_of NM d)) (filter (in_period NM op) L) ->
@@ -34,7 +34,7 @@ Section PrintOnRun.
     run_log NM w2 op (rep_print NM c) = run_log NM w1 op (rep_print NM c)
     /\ out_status (run_log NM w1 op (rep_print NM c)) = Ok.
   Proof.
-    intros Hc S1 H1 HQ Hn Hl S2. rewrite (run_print_output NM w1 op c data toks L S1 H1) in *. cbn [out_stdout] in S2.
+    intros Hc Hst S1 H1 HQ Hn Hl S2. rewrite (run_print_output NM w1 op c data toks L S1 H1) in *. cbn [out_stdout] in S2.
     split; [|reflexivity].
     set (Ls := filter (in_period NM op) L) in *.
     assert (Hsafe : forallb safe_tok toks = true).
@@ -44,7 +44,8 @@ Section PrintOnRun.
     { destruct Ls as [|d0 Ls0] eqn:ELs; [apply read_log_nil|].
       assert (HLne : L <> []) by (intros ->; discriminate).
       assert (HL : heading_layout (layout_core (rc_date c)) = true) by (rewrite Hc; apply Hlay; assumption).
-      subst toks. apply (print_reads_back_core_on NM Q FSO c (d0 :: Ls0) Hsafe HL); [|exact HQ].
+      assert (Hsep : sep_ok toks = true) by (unfold stable_layout in Hst; apply andb_true_iff in Hst; apply Hst).
+      subst toks. apply (print_reads_back_core_on NM Q FSO c (d0 :: Ls0) Hsafe Hsep HL); [|exact HQ].
       rewrite <- ELs in *. rewrite Forall_forall in *. intros d Hd.
       assert (HdL : In d L) by (unfold Ls in Hd; apply filter_In in Hd; tauto).
       destruct (Hshape d HdL) as [S1' [S2' [S3' S4']]].
@@ -58,7 +59,7 @@ Section PrintOnRun.
 
   (** the same with the invariant assumed of all the days of the log *)
   Corollary run_print_twice_log_on_all w1 w2 op c data toks L :
-    rc_date c = toks ->
+    rc_date c = toks -> stable_layout toks = true ->
     print_setting w1 op data toks -> read_log NM toks data = Some L ->
     days_in NM Q L ->
     Forall (fun d => Forall (fun mp => documented_note mp = true) (notes_of NM d)) (filter (in_period NM op) L) ->
@@ -67,7 +68,7 @@ Section PrintOnRun.
     run_log NM w2 op (rep_print NM c) = run_log NM w1 op (rep_print NM c)
     /\ out_status (run_log NM w1 op (rep_print NM c)) = Ok.
   Proof.
-    intros Hc S1 H1 HQ Hn Hl S2.
-    apply (run_print_twice_log_on w1 w2 op c data toks L Hc S1 H1 (days_in_filter _ L HQ) Hn Hl S2).
+    intros Hc Hst S1 H1 HQ Hn Hl S2.
+    apply (run_print_twice_log_on w1 w2 op c data toks L Hc Hst S1 H1 (days_in_filter _ L HQ) Hn Hl S2).
   Qed.
 End PrintOnRun.
